@@ -41,6 +41,23 @@ def _registry():
                 kw["classes"] = [0, 1]
             return cls(budget_manager=mgr(**mkw), **kw)
         return fac
+    def unbudgeted(cls, mgr, needs_classes=False):
+        # an explicit manager that leaves its own budget open (None): the strategy's budget / the default applies to a private copy
+        def fac(seed, budget):
+            import inspect
+            kw = {"budget": budget, "random_state": seed}
+            mkw = {"budget": None}
+            if mgr is bm.FixedUncertaintyBudgetManager:
+                mkw["classes"] = [0, 1]
+            if "random_state" in inspect.signature(mgr.__init__).parameters:
+                mkw["random_state"] = seed + 1
+            if needs_classes:
+                kw["classes"] = [0, 1]
+            return cls(budget_manager=mgr(**mkw), **kw)
+        return fac
+    reg["VariableUncertainty{explicit_manager,budget=None}"] = unbudgeted(st.VariableUncertainty, bm.VariableUncertaintyBudgetManager)
+    reg["Split{explicit_manager,budget=None}"] = unbudgeted(st.Split, bm.SplitBudgetManager)
+    reg["StreamProbabilisticAL{explicit_manager,budget=None}"] = unbudgeted(st.StreamProbabilisticAL, bm.BalancedIncrementalQuantileFilter)
     reg["FixedUncertainty{explicit_manager}"] = explicit(st.FixedUncertainty, bm.FixedUncertaintyBudgetManager, True)
     reg["VariableUncertainty{explicit_manager}"] = explicit(st.VariableUncertainty, bm.VariableUncertaintyBudgetManager)
     reg["RandomVariableUncertainty{explicit_manager}"] = explicit(st.RandomVariableUncertainty, bm.RandomVariableUncertaintyBudgetManager)
